@@ -1,4 +1,5 @@
 import OutlineModel.Proofs.NatInv
+import OutlineModel.Proofs.TieValidatePacket
 import OutlineModel.Model.UDPRun
 import OutlineModel.Gen.Decisions
 /-
@@ -253,5 +254,45 @@ theorem removed_exactly_once (st : State) (inv : NatInv st) (client : String) :
 theorem status_alphabet_as_modelled :
     Gen.Decisions.udpStatuses = ["ERR_ADDRESS_INVALID", "ERR_CIPHER", "ERR_CREATE_SOCKET", "ERR_PACK", "ERR_READ", "ERR_READ_ADDRESS",
       "ERR_RESOLVE_ADDRESS", "ERR_WRITE"] := by decide
+
+/-- **code_packet_status_names_outcome**: the status the translated `packetHandler.validatePacket` (service/udp.go)
+    gives a client datagram — the one `Handle` then reports with AddPacketFromClient — names what happened, for every
+    behaviour of its collaborators: ERR_READ_ADDRESS exactly when no address header could be split off,
+    ERR_RESOLVE_ADDRESS exactly when the header was split off but the resolver failed, the validator's verdict (through
+    ensureConnectionError, default ERR_ADDRESS_INVALID) exactly when the resolved IP was rejected, and no error otherwise;
+    the three literals are in the regenerated status table. -/
+theorem code_packet_status_names_outcome
+    (addrString : List UInt8 → String) (resolveC : String → String → Tie.ValidatePacket.UAddr × Option String)
+    (split : List UInt8 → List UInt8) (ensure : Option String → String → String → Option String)
+    (validator : List UInt8 → Option String) (ipOf : Tie.ValidatePacket.UAddr → List UInt8)
+    (h : Gen.Code.packetHandler) (text : List UInt8) (hpre : (split text).length ≤ text.length) :
+    (∃ payload addr, Gen.Code.packetHandler.validatePacket addrString resolveC split ensure validator ipOf h text =
+      some (h, payload, addr,
+        if split text = [] then some "ERR_READ_ADDRESS"
+        else if (resolveC "udp" (addrString (split text))).2 ≠ none then some "ERR_RESOLVE_ADDRESS"
+        else if validator (ipOf (resolveC "udp" (addrString (split text))).1) ≠ none then
+          ensure (validator (ipOf (resolveC "udp" (addrString (split text))).1)) "ERR_ADDRESS_INVALID" "invalid address"
+        else none)) ∧
+    "ERR_READ_ADDRESS" ∈ Gen.Decisions.udpStatuses ∧ "ERR_RESOLVE_ADDRESS" ∈ Gen.Decisions.udpStatuses ∧
+      "ERR_ADDRESS_INVALID" ∈ Gen.Decisions.udpStatuses := by
+  refine ⟨?_, by decide, by decide, by decide⟩
+  rw [Tie.ValidatePacket.validatePacket_tie _ _ _ _ _ _ _ _ hpre]
+  refine ⟨(Tie.ValidatePacket.decide' addrString resolveC split ensure validator ipOf text).1,
+    (Tie.ValidatePacket.decide' addrString resolveC split ensure validator ipOf text).2.1, ?_⟩
+  have hst : (Tie.ValidatePacket.decide' addrString resolveC split ensure validator ipOf text).2.2 =
+      (if split text = [] then some "ERR_READ_ADDRESS"
+        else if (resolveC "udp" (addrString (split text))).2 ≠ none then some "ERR_RESOLVE_ADDRESS"
+        else if validator (ipOf (resolveC "udp" (addrString (split text))).1) ≠ none then
+          ensure (validator (ipOf (resolveC "udp" (addrString (split text))).1)) "ERR_ADDRESS_INVALID" "invalid address"
+        else none) := by
+    unfold Tie.ValidatePacket.decide'
+    by_cases h1 : split text = []
+    · simp [h1]
+    · by_cases h2 : (resolveC "udp" (addrString (split text))).2 = none
+      · by_cases h3 : validator (ipOf (resolveC "udp" (addrString (split text))).1) = none
+        · simp [h1, h2, h3]
+        · simp [h1, h2, h3]
+      · simp [h1, h2]
+  rw [← hst]
 
 end OutlineModel.Props.C16
